@@ -236,12 +236,12 @@ func (f *skyFixture) Get(host, target, ua string) (*rawResp, error) {
 
 // GetH is Get with extra raw header lines ("Name: value\r\n...").
 func (f *skyFixture) GetH(host, target, ua, extra string) (*rawResp, error) {
-	c, err := net.DialTimeout("tcp", fmt.Sprintf("127.0.0.1:%d", f.Port), 2*time.Second)
+	c, err := net.DialTimeout("tcp", fmt.Sprintf("127.0.0.1:%d", f.Port), 10*time.Second)
 	if err != nil {
 		return nil, err
 	}
 	defer c.Close()
-	c.SetDeadline(time.Now().Add(5 * time.Second))
+	c.SetDeadline(time.Now().Add(30 * time.Second))
 	fmt.Fprintf(c, "GET %s HTTP/1.1\r\nHost: %s\r\nUser-Agent: %s\r\n%sConnection: close\r\n\r\n", target, host, ua, extra)
 	resp, err := http.ReadResponse(bufio.NewReader(c), nil)
 	if err != nil {
